@@ -98,6 +98,8 @@ def gen_cases(tier, seed):
             continue
         case["db"] = rng.choice(("forest", "forest", "forest_norev"))
         case["pack"]["sym"] = rng.random() < 0.6
+        if str(case["pack"]["ver"]).startswith("prefix"):
+            case["pack"]["nest"] = intuniv.rng_for(seed, "C11w/nest", i).choice((0, 1, 1, 2))
         case["schedule"] = {"mode": rng.choice(("drain", "sliced")), "costs": [rng.choice((0.001, 2.5))],
                             "rng_seed": 0, "tree_k": 0, "perc": 1, "smallest": False}
         case["kind"] = "words"
@@ -197,6 +199,22 @@ def run_words(case):
         s._expand(s.classdb.get_class(wp.label), wp.label, wp.strategies, wp.inferral)
     list(s.ruledb.get_specification_rules())
     cx.count("c11.public_extractions")
+    # rule objects that were keyed for this database inserted into fresh forest databases
+    # (that is what expanding verified classes does, once per class and round): the same
+    # monitors judge every one of those databases
+    from comb_spec_searcher.exception import InvalidOperationError
+    from comb_spec_searcher.strategies.rule import VerificationRule
+
+    def offers_pack(rule):
+        try:
+            rule.pack()
+        except InvalidOperationError:
+            return False
+        return True
+
+    if any(isinstance(r, VerificationRule) and offers_pack(r) for r in res.spec.rules_dict.values()):
+        res.spec.expand_verified()
+        cx.count("c11.expansions_through_fresh_forest_databases")
     return {"nontrivial": prof["rules"] >= 3, "fingerprint": fp(case)}
 
 
